@@ -74,7 +74,7 @@ def grow_all(env, crop_name, reload_):
 
 # ------------------------------------------------------------------ Runner
 def body_runner(E, n1, n2, cases, nvars, idim, const_is_dim, mode, b, reload_, shuf, base, t, j1, j2, j3,
-                unsorted=False):
+                unsorted=False, resow=False):
     n1 = concretize(n1, 1, 2)
     n2 = concretize(n2, 1, 2)
     nvars = concretize(nvars, 1, 2)
@@ -100,6 +100,11 @@ def body_runner(E, n1, n2, cases, nvars, idim, const_is_dim, mode, b, reload_, s
         r = make_runner(base, nvars, idim, const_is_dim, t)
         kw = {} if mode == 0 else ({"batchsize": b} if mode == 1 else {"num_batches": b})
         crop = r.Crop(name="rc", parent_dir=env.parent, **kw)
+        if cbool(resow):
+            # the crop was sown and grown before with other values (same layout) and is sown again without a reap
+            # in between ("you can safely resow"): the batches are grown again by number
+            crop.sow_combos({"a": [a + 50 for a in A[:n1]], "b": B[:n2]}, verbosity=0)
+            grow_all(env, "rc", reload_)
         if cbool(cases):
             crop.sow_cases(("a", "b"), pts, verbosity=0)
         else:
@@ -196,7 +201,7 @@ def _shifted(env, ds):
 
 
 # ------------------------------------------------------------------ Sampler
-def body_sampler(E, n, bs, reload_, base, i0, i1, i2, i3):
+def body_sampler(E, n, bs, reload_, base, i0, i1, i2, i3, ov=False):
     n = concretize(n, 1, 2)
     bs = concretize(bs, 1, 2)
     reload_ = cbool(reload_)
@@ -207,11 +212,13 @@ def body_sampler(E, n, bs, reload_, base, i0, i1, i2, i3):
 
         install_choice(env, [i0, i1, i2, i3])
         s1 = sampler("s1.pkl")
-        s1.sample_combos(n, verbosity=0)
+        # ov: a per-call override of one argument's sampling space, merged over the default combos
+        override = {"b": [77, 78]} if cbool(ov) else None
+        s1.sample_combos(n, combos=override, verbosity=0)
         install_choice(env, [i0, i1, i2, i3])
         s2 = sampler("s2.pkl")
         crop = s2.Crop(name="sc", parent_dir=env.parent, batchsize=bs)
-        crop.sow_samples(n, verbosity=0)
+        crop.sow_samples(n, combos=override, verbosity=0)
         grow_all(env, "sc", reload_)
         if reload_:
             crop = cp.Crop(name="sc", parent_dir=env.parent)
@@ -230,13 +237,14 @@ def body_sampler(E, n, bs, reload_, base, i0, i1, i2, i3):
 BODIES = {}
 _G = globals()
 _RS = ("n1:int n2:int cases:bool nvars:int idim:bool const_is_dim:bool mode:int b:int reload_:bool shuf:bool "
-       "base:int t:int j1:int j2:int j3:int unsorted:bool")
+       "base:int t:int j1:int j2:int j3:int unsorted:bool resow:bool")
 
 CONDS = [
     make_cond(_G, "runner_desc", body_runner, _RS,
               ["1 <= n1 <= 2 and 1 <= n2 <= 2 and 1 <= nvars <= 2 and mode == 1 and b == 2 and not shuf",
                "j1 == 0 and j2 == 0 and j3 == 0", "idim or not const_is_dim",
-               "not unsorted or (not cases and n1 == 2 and n2 == 2 and not const_is_dim)"], timeout=600,
+               "not unsorted or (not cases and n1 == 2 and n2 == 2 and not const_is_dim)",
+               "not resow or (not cases and not unsorted and nvars == 1 and not idim)"], timeout=600,
               bounds="Runner crops: grids up to 2x2 and unsorted case subsets, 1-2 variables, optional internal "
                      "dimension, constant that is / is not an internal dimension, resource, attribute; batchsize 2; "
                      "with / without reloading crop and farmer by name; combos also given in non-alphabetical "
@@ -244,7 +252,7 @@ CONDS = [
     make_cond(_G, "runner_batching", body_runner, _RS,
               ["n1 == 2 and n2 == 2 and nvars == 2 and idim and not const_is_dim and 0 <= mode <= 2 and 1 <= b <= 3",
                "0 <= j1 <= 1 and 0 <= j2 <= 2 and 0 <= j3 <= 3", "shuf or (j1 == 0 and j2 == 0 and j3 == 0)",
-               "not shuf or (mode == 1 and b == 2 and not cases)", "not unsorted"], timeout=600,
+               "not shuf or (mode == 1 and b == 2 and not cases)", "not unsorted", "not resow"], timeout=600,
               bounds="2x2 grid / 3 cases, two variables: all batchings (b in 1..3), reload on/off; plus every "
                      "sow-time shuffle permutation (batchsize 2), reaped by the sowing object or by a reloaded one"),
 ] + split_conds(_G, "harvester", body_harvester, "n1:int pre:bool mode:int b:int reload_:bool base:int t:int p1:bool p2:bool",
@@ -253,7 +261,7 @@ CONDS = [
               bounds="Harvester crops vs direct harvest_combos: 1-2 settings, optional earlier data (equal or "
                      "conflicting), the three overwrite policies, all batchings, reload on/off: same exception "
                      "behaviour, same full_ds, same disk dataset, same last_ds; crop kept iff the merge failed") + [
-    make_cond(_G, "sampler", body_sampler, "n:int bs:int reload_:bool base:int i0:int i1:int i2:int i3:int",
+    make_cond(_G, "sampler", body_sampler, "n:int bs:int reload_:bool base:int i0:int i1:int i2:int i3:int ov:bool",
               ["1 <= n <= 2 and 1 <= bs <= 2 and 0 <= i0 <= 1 and 0 <= i1 <= 1 and 0 <= i2 <= 1 and 0 <= i3 <= 1",
                "n == 2 or (i2 == 0 and i3 == 0)"], timeout=600,
               bounds="Sampler crops vs direct sample_combos with the same drawn indices: n<=2, batchsize 1..2, "
